@@ -66,6 +66,13 @@ fn build_input(t: &mut Tape) -> Built {
 }
 
 fn field_for(t: &mut Tape, ty: Ty, good: bool) -> String {
+    if ty != Ty::Str && t.chance(1, 3) {
+        // a generated numeric text; the reference decides whether it converts
+        let x = crate::textgen::numeric_text(t);
+        if !x.contains(',') && !x.contains('"') {
+            return x;
+        }
+    }
     match ty {
         Ty::Str => {
             if good || t.chance(1, 2) {
